@@ -258,6 +258,10 @@ func OwnerRef(set *asv1.StatefulSet, class string) []metav1.OwnerReference {
 		return []metav1.OwnerReference{{APIVersion: "apps/v1", Kind: "ReplicaSet", Name: "rs", UID: "uid-rs", Controller: boolp(true), BlockOwnerDeletion: boolp(true)}}
 	case "noncontroller":
 		return []metav1.OwnerReference{{APIVersion: "apps.pingcap.com/v1", Kind: "StatefulSet", Name: set.Name, UID: set.UID}}
+	case "builtin":
+		// the built-in StatefulSet of the same name the set was upgraded from (deleted with orphan propagation; the
+		// garbage collector has not removed the reference yet)
+		return []metav1.OwnerReference{{APIVersion: "apps/v1", Kind: "StatefulSet", Name: set.Name, UID: "uid-builtin", Controller: boolp(true), BlockOwnerDeletion: boolp(true)}}
 	}
 	panic("unknown owner class " + class)
 }
